@@ -249,22 +249,29 @@ def rule_cadence(ctx):
         n += 1
         where = 'src/simulationarchive.c %s' % fname
         param = cfront.params(f)[-1]['name']
-        guard = None
-        for ifs in walk(cfront.body(f)):
-            if ifs.get('kind') == 'IfStmt' and '!=' in render(ifs['inner'][0]) and 'auto' in render(ifs['inner'][0]):
-                guard = ifs
-        if guard is None:
-            ctx.report('R06.5', 'setter:%s:guard' % mode, where, 'the deadline is reset unconditionally: a run restarted from an archive re-arms the cadence and duplicates or skips snapshots')
+        from . import pathcond
+        pcs = pathcond.conditions(f)           # if / else nesting and negated early returns alike
+        assigns_ = [(render(e['inner'][0]), render(e['inner'][1]), e) for e in walk(cfront.body(f)) if is_assign(e) and e['opcode'] == '=']
+        resets = [(l, r_, e) for l, r_, e in assigns_ if l == nxt]
+        if not resets:
+            ctx.report('R06.5', 'setter:%s:next' % mode, where, 'the first deadline %s is never set' % nxt)
             continue
-        c = render(guard['inner'][0]).replace(' ', '')
-        if c != '(r.simulationarchive_auto_%s!=%s)' % (mode, param):
-            ctx.report('R06.5', 'setter:%s:compare' % mode, where, 'the guard compares %s, not the %s cadence with the requested %s' % (c, mode, param))
-        sets = {render(e['inner'][0]): render(e['inner'][1]) for e in walk(guard['inner'][1]) if is_assign(e)}
-        if sets.get('r.simulationarchive_auto_' + mode) != param:
-            ctx.report('R06.5', 'setter:%s:store' % mode, where, 'the requested cadence is not stored in simulationarchive_auto_%s (%s)' % (mode, sets))
-        if sets.get(nxt) != now:
-            ctx.report('R06.5', 'setter:%s:next' % mode, where, 'the first deadline is %s = %s, not %s = %s' % (nxt, sets.get(nxt), nxt, now))
-        samples.append('%s: %s -> %s' % (fname, c, sets))
+        want = {'r.simulationarchive_auto_%s!=%s' % (mode, param), '%s!=r.simulationarchive_auto_%s' % (param, mode),
+                '!(r.simulationarchive_auto_%s==%s' % (mode, param), '!(%s==r.simulationarchive_auto_%s' % (param, mode),
+                '!r.simulationarchive_auto_%s==%s' % (mode, param)}
+        for l, r_, e in resets:
+            cs = [c.replace(' ', '').strip('()') for c in pcs.get(id(e), [])]
+            if not any(c in want for c in cs):
+                other = [c for c in cs if 'simulationarchive_auto' in c or re.search(r'(?<![\w.])%s(?![\w(])' % re.escape(param), c)]
+                if other:
+                    ctx.report('R06.5', 'setter:%s:compare' % mode, where, 'the guard compares %s, not the %s cadence with the requested %s' % (other[0], mode, param))
+                else:
+                    ctx.report('R06.5', 'setter:%s:guard' % mode, where, 'the deadline is reset unconditionally: a run restarted from an archive re-arms the cadence and duplicates or skips snapshots')
+            if r_ != now:
+                ctx.report('R06.5', 'setter:%s:next' % mode, where, 'the first deadline is %s = %s, not %s = %s' % (nxt, r_, nxt, now))
+        if not any(l == 'r.simulationarchive_auto_' + mode and r_ == param for l, r_, e in assigns_):
+            ctx.report('R06.5', 'setter:%s:store' % mode, where, 'the requested cadence is not stored in simulationarchive_auto_%s' % mode)
+        samples.append('%s: %s reset under %s' % (fname, nxt, [c for c in pcs.get(id(resets[0][2]), [])][-1:]))
     # the heartbeat is called before every step and once after the loop
     tu2 = cfront.load_tu('rebound.c')
     f = tu2.func('reb_simulation_integrate_raw')
